@@ -1,8 +1,10 @@
 package props
 
 import (
+	"fmt"
 	"go/token"
 	"go/types"
+	"sort"
 	"strings"
 
 	"golang.org/x/tools/go/ssa"
@@ -784,5 +786,955 @@ func ruleMarshalOutputImmutable(c *chk.Ctx) {
 	}
 	if n == 0 {
 		c.Undecided("PROV.raw", nil, "marshal sites", 0, "no json.Marshal call found")
+	}
+}
+
+// ruleReportsErrorExact (C15): Check records "the function reports an error"
+// exactly when its last result type is identical to the error interface type:
+// the flag selects the decoder that turns the function's value into the
+// handler's error, so a weaker test (Implements, AssignableTo) would hand a
+// concrete result that merely has an Error method back as an error.
+func ruleReportsErrorExact(c *chk.Ctx) {
+	f := c.M.HandlerPkg.Func("Check")
+	if f == nil {
+		c.Undecided("TABLE.check", nil, "ReportsError", 0, "Check not found")
+		return
+	}
+	isTypeEq := func(cd ir.Cond) bool {
+		x, y, op, ok := ir.Rel(cd)
+		if !ok || op != token.EQL {
+			return false
+		}
+		for _, p := range [][2]ssa.Value{{x, y}, {y, x}} {
+			g := globalLoad(p[0])
+			call, isCall := p[1].(*ssa.Call)
+			if g != nil && typeGlobalRole(c, g) == "errType" && isCall && call.Call.IsInvoke() && call.Call.Method.Name() == "Out" {
+				return true
+			}
+		}
+		return false
+	}
+	n := 0
+	for _, g := range c.P.Ext(f) {
+		ir.Instrs(g, func(ins ssa.Instruction) {
+			st, ok := ins.(*ssa.Store)
+			if !ok {
+				return
+			}
+			fa, ok := st.Addr.(*ssa.FieldAddr)
+			if !ok || ir.FieldVar(fa).Name() != "ReportsError" {
+				return
+			}
+			n++
+			ok = false
+			if k, isC := st.Val.(*ssa.Const); isC && k.Value != nil {
+				if k.Value.String() == "false" {
+					ok = true // clearing; the true stores carry the obligation
+				} else {
+					for _, cs0 := range ir.CondAltsAt(st.Block()) {
+						for _, cs := range expandPredicateHelpers(c, cs0, 0) {
+							for _, cd := range cs {
+								if isTypeEq(cd) {
+									ok = true
+								}
+							}
+						}
+					}
+				}
+			} else {
+				for _, cs := range expandPredicateHelpers(c, []ir.Cond{{V: st.Val, Truth: true}}, 0) {
+					if len(cs) == 1 && isTypeEq(cs[0]) {
+						ok = true
+					}
+				}
+			}
+			c.Check(ok, "TABLE.check", g, "ReportsError ⇔ last result is the error type", st.Pos(), "the flag is stored from / under the identity test Out(i) == errType", "FuncInfo.ReportsError is not decided by identity of the last result type with error (e.g. Implements): a function whose only result merely has an Error method would have its result delivered as the handler's error")
+		})
+	}
+	if n == 0 {
+		c.Undecided("TABLE.check", f, "ReportsError ⇔ last result is the error type", f.Pos(), "no store to FuncInfo.ReportsError found under Check")
+	}
+}
+
+// typeGlobalRole names a package-level reflect.Type variable of the handler
+// package by what it is initialised from — reflect.TypeOf((*T)(nil)).Elem() —
+// rather than by its identifier: "errType" for T = error, "ctxType" for
+// context.Context, "strictType" for the DisallowUnknownFields interface.
+func typeGlobalRole(c *chk.Ctx, g *ssa.Global) string {
+	if g == nil || c.M.HandlerPkg == nil {
+		return ""
+	}
+	init := c.M.HandlerPkg.Func("init")
+	role := ""
+	ir.Instrs(init, func(ins ssa.Instruction) {
+		st, ok := ins.(*ssa.Store)
+		if !ok || st.Addr != ssa.Value(g) {
+			return
+		}
+		elem, ok := st.Val.(*ssa.Call)
+		if !ok || !elem.Call.IsInvoke() || elem.Call.Method.Name() != "Elem" {
+			return
+		}
+		tof, ok := elem.Call.Value.(*ssa.Call)
+		if !ok || !ir.IsCallTo(&tof.Call, "reflect.TypeOf") || len(tof.Call.Args) != 1 {
+			return
+		}
+		arg := tof.Call.Args[0]
+		if mi, isMI := arg.(*ssa.MakeInterface); isMI {
+			arg = mi.X
+		}
+		pt, ok := arg.Type().(*types.Pointer)
+		if !ok {
+			return
+		}
+		switch ts := types.TypeString(pt.Elem(), nil); {
+		case ts == "error":
+			role = "errType"
+		case ts == "context.Context":
+			role = "ctxType"
+		case strings.Contains(ts, "DisallowUnknownFields"):
+			role = "strictType"
+		}
+	})
+	if role == "" {
+		return g.Name()
+	}
+	return role
+}
+
+// ruleErrorValuesImmutable (C14, C18): an *Error that already exists — a
+// package sentinel, the handler's error, the error object decoded from the
+// wire — is never written to: every store into an Error's fields (or over a
+// whole Error) in the root package goes to a value allocated in the same
+// function (a composite literal, new, or a local copy). Code, message and data
+// therefore arrive as they were produced, and two replies built from the same
+// sentinel cannot see each other's data.
+func ruleErrorValuesImmutable(c *chk.Ctx) {
+	n := 0
+	for _, f := range pkgFuncs(c, c.M.Pkg) {
+		ir.Instrs(f, func(ins ssa.Instruction) {
+			st, ok := ins.(*ssa.Store)
+			if !ok {
+				return
+			}
+			var base ssa.Value
+			what := ""
+			if fa, isFA := st.Addr.(*ssa.FieldAddr); isFA {
+				if o := ir.FieldOwner(fa); o == nil || o != c.M.ErrorT {
+					return
+				}
+				base, what = fa.X, "field "+ir.FieldVar(fa).Name()
+			} else if pt, isP := st.Addr.Type().(*types.Pointer); isP && types.Identical(pt.Elem(), c.M.ErrorT) {
+				base, what = st.Addr, "the whole value"
+			} else {
+				return
+			}
+			n++
+			b := ir.NormCell(base)
+			_, fresh := b.(*ssa.Alloc)
+			c.Check(fresh, "PROV.errimmutable", f, "stores into an Error go to a fresh value", st.Pos(), "the Error written ("+what+") is allocated in this function", "an existing Error ("+what+") is modified in place: a sentinel shared by every request, the handler's own error or the error object received from the peer would not arrive as it was produced")
+		})
+	}
+	c.Floor("PROV.errimmutable", 3, "stores building Error values (confirmed by hand: ≥ 3)")
+}
+
+// settleFuncs lists the functions that settle a Response: those receiving from
+// its slot.
+func settleFuncs(c *chk.Ctx) []*ssa.Function {
+	var out []*ssa.Function
+	for _, f := range pkgFuncs(c, c.M.Pkg) {
+		has := false
+		ir.Instrs(f, func(ins ssa.Instruction) {
+			if u, ok := ins.(*ssa.UnOp); ok && u.Op == token.ARROW && chk.LoadsField(u.X, c.M.RCh) {
+				has = true
+			}
+		})
+		if has {
+			out = append(out, f)
+		}
+	}
+	return out
+}
+
+// ruleBatchWaitsAll (C05): a loop that settles the responses of a batch visits
+// every one of them: it has no early exit. A Response is settled only by a
+// waiter, so a member skipped by the loop would be returned to the caller
+// unsettled — looking like a success with an empty result.
+func ruleBatchWaitsAll(c *chk.Ctx) {
+	n := 0
+	seen := map[*ssa.BasicBlock]bool{}
+	for _, w := range settleFuncs(c) {
+		for _, cs := range c.P.Callers(w) {
+			if !ir.InCycle(cs.Instr.Block()) {
+				continue
+			}
+			hdr := loopHeaderOf(cs.Instr.Block())
+			if hdr == nil || seen[hdr] {
+				continue
+			}
+			seen[hdr] = true
+			n++
+			early := loopEarlyExits(hdr)
+			where := ""
+			if len(early) > 0 && len(early[0][0].Instrs) > 0 {
+				where = c.P.Pos(early[0][0].Instrs[len(early[0][0].Instrs)-1].Pos())
+			}
+			c.Check(len(early) == 0, "PAIR.loop", cs.Caller, "every response of a batch is settled", cs.Instr.Pos(), "the loop waiting for the responses has no early exit",
+				"the loop that waits for the responses of a batch can be left early (at "+where+"): the remaining responses are handed to the caller unsettled, with neither result nor error")
+		}
+	}
+	if n == 0 {
+		c.Undecided("PAIR.loop", nil, "batch wait loop", 0, "no loop settling responses found")
+	}
+}
+
+// rulePayloadSentVerbatim (C11): a framing's Send transmits the caller's bytes
+// themselves. Inside every Send method of the channel package the record flows
+// only into len/append/copy, writes, repository helpers and library functions
+// that cannot hand back a rewritten copy (searches and tests returning ints or
+// bools). A library call that takes the record and returns bytes, a string or
+// an interface — json.Marshal, bytes.TrimSpace, bytes.ToLower, … — means that
+// something other than the record may be transmitted, so a receiver of the same
+// framing would not get back the bytes that were sent.
+func rulePayloadSentVerbatim(c *chk.Ctx) {
+	n := 0
+	for _, f := range pkgFuncs(c, c.M.ChanPkg) {
+		if f.Name() != "Send" || f.Signature.Recv() == nil || len(f.Params) != 2 || f.Params[1].Type().String() != "[]byte" || f.Synthetic != "" {
+			continue
+		}
+		n++
+		var bad []string
+		seen := map[ssa.Value]bool{}
+		var follow func(v ssa.Value)
+		follow = func(v ssa.Value) {
+			if seen[v] || v.Referrers() == nil {
+				return
+			}
+			seen[v] = true
+			for _, r := range *v.Referrers() {
+				switch x := r.(type) {
+				case *ssa.ChangeType:
+					follow(x)
+				case *ssa.Convert:
+					follow(x)
+				case *ssa.MakeInterface:
+					follow(x)
+				case *ssa.Slice:
+					follow(x)
+				case *ssa.Phi:
+					follow(x)
+				case ssa.CallInstruction:
+					cc := x.Common()
+					if _, isB := cc.Value.(*ssa.Builtin); isB {
+						continue
+					}
+					callee := cc.StaticCallee()
+					if callee != nil && c.P.InRepo[callee] {
+						continue
+					}
+					if cc.IsInvoke() && (cc.Method.Name() == "Write" || cc.Method.Name() == "WriteString") {
+						continue
+					}
+					rewrites := false
+					res := cc.Signature().Results()
+					for i := 0; i < res.Len(); i++ {
+						switch t := res.At(i).Type().Underlying().(type) {
+						case *types.Slice:
+							rewrites = true
+						case *types.Basic:
+							if t.Info()&types.IsString != 0 {
+								rewrites = true
+							}
+						case *types.Interface:
+							if res.At(i).Type().String() != "error" {
+								rewrites = true
+							}
+						}
+					}
+					if rewrites {
+						name := "a library function"
+						if callee != nil {
+							name = callee.String()
+						}
+						bad = append(bad, name+" at "+c.P.Pos(x.Pos()))
+					}
+				}
+			}
+		}
+		follow(f.Params[1])
+		c.Check(len(bad) == 0, "PROV.payload", f, "the record is transmitted verbatim", f.Pos(), "the record flows only into len/append/copy, writes and searches", "the record passes through "+strings.Join(bad, ", ")+", which returns a rewritten copy: the bytes transmitted can differ from the bytes given to Send")
+	}
+	c.Floor("PROV.payload", 3, "Send methods of the channel package (confirmed by hand: hdr, jsonc, split)")
+}
+
+// errorMappers lists repository functions that take an error and return an
+// error (possibly among other results).
+func errorMappers(c *chk.Ctx) []*ssa.Function {
+	var out []*ssa.Function
+	for _, f := range c.P.Funcs {
+		if !c.P.InRepo[f] || len(f.Blocks) == 0 || f.Synthetic != "" {
+			continue
+		}
+		res := f.Signature.Results()
+		if res.Len() == 0 || res.At(res.Len()-1).Type().String() != "error" {
+			continue
+		}
+		for _, p := range f.Params {
+			if p.Type().String() == "error" {
+				out = append(out, f)
+				break
+			}
+		}
+	}
+	return out
+}
+
+// ruleErrorMappersKeepFailure (C16): a helper through which the handler
+// package passes a decoding error on its way out never turns a failure into
+// success: it returns nil only where its error argument is known to be nil.
+func ruleErrorMappersKeepFailure(c *chk.Ctx, pkg *ssa.Package, rule string) {
+	for _, f := range errorMappers(c) {
+		if !inPkg(c, f, pkg) {
+			continue
+		}
+		var errPar *ssa.Parameter
+		for _, p := range f.Params {
+			if p.Type().String() == "error" {
+				errPar = p
+			}
+		}
+		last := f.Signature.Results().Len() - 1
+		bad := ""
+		for _, r := range ir.Returns(f) {
+			if !ir.IsNilConst(ir.ReturnResult(r, last)) {
+				continue
+			}
+			same := func(v ssa.Value) bool { return v == ssa.Value(errPar) }
+			proved := false
+			for _, cs := range ir.CondAltsAt(r.Block()) {
+				if ir.ProvesNil(cs, same) {
+					proved = true
+				} else {
+					proved = false
+					break
+				}
+			}
+			if !proved {
+				bad = c.P.Pos(r.Pos())
+			}
+		}
+		c.Check(bad == "", rule, f, "an error handed in is not turned into success", f.Pos(), "nil is returned only where the error argument is nil", "returns nil at "+bad+" although the error it was given may be non-nil: a failed decode would be reported as success and the function called with partly decoded arguments")
+	}
+}
+
+// ruleDecoderConfiguration (C16): the handler package decodes parameters with
+// encoding/json's default rules plus, where strictness is asked for,
+// DisallowUnknownFields — no other decoder option (UseNumber would deliver
+// json.Number instead of float64 into interface-typed arguments).
+func ruleDecoderConfiguration(c *chk.Ctx) {
+	allowed := map[string]bool{"Decode": true, "DisallowUnknownFields": true, "More": true, "Token": true, "Buffered": true, "InputOffset": true}
+	n := 0
+	for _, f := range pkgFuncs(c, c.M.HandlerPkg) {
+		ir.Calls(f, func(ci ssa.CallInstruction) {
+			callee := ci.Common().StaticCallee()
+			if callee == nil || callee.Signature.Recv() == nil || callee.Signature.Recv().Type().String() != "*encoding/json.Decoder" {
+				return
+			}
+			n++
+			c.Check(allowed[callee.Name()], "TABLE.decoder", f, "decoder option "+callee.Name(), ci.Pos(), "a json.Decoder is used with the default decoding rules (plus DisallowUnknownFields)", "the parameter decoder is configured with "+callee.Name()+": arguments would no longer be what encoding/json yields by default for the declared types")
+		})
+	}
+	c.Floor("TABLE.decoder", 2, "json.Decoder method calls in the handler package (confirmed by hand: ≥ 4)")
+}
+
+// ruleIsErrClosingTable (C08, C20): channel.IsErrClosing recognises a closed
+// channel or listener through errors.Is against both sentinels (its own
+// ErrClosed and net.ErrClosed), so that wrapped errors count, and never by
+// identity comparison with a sentinel.
+func ruleIsErrClosingTable(c *chk.Ctx) {
+	f := c.M.ChanPkg.Func("IsErrClosing")
+	if f == nil {
+		c.Undecided("TABLE.closing", nil, "IsErrClosing", 0, "not found")
+		return
+	}
+	want := map[string]bool{"ErrClosed": false, "net.ErrClosed": false}
+	identity := ""
+	for _, g := range c.P.Ext(f) {
+		ir.Instrs(g, func(ins ssa.Instruction) {
+			switch x := ins.(type) {
+			case *ssa.Call:
+				if ir.IsCallTo(&x.Call, "errors.Is") && len(x.Call.Args) == 2 {
+					if gl := globalLoad(x.Call.Args[1]); gl != nil {
+						name := gl.Name()
+						if gl.Pkg != nil && gl.Pkg.Pkg.Path() == "net" {
+							name = "net." + name
+						} else if gl.Pkg != c.M.ChanPkg {
+							return
+						}
+						if _, ok := want[name]; ok && c.P.Canon(x.Call.Args[0]) == ssa.Value(f.Params[0]) {
+							want[name] = true
+						}
+					}
+				}
+			case *ssa.BinOp:
+				if x.Op == token.EQL || x.Op == token.NEQ {
+					for _, side := range []ssa.Value{x.X, x.Y} {
+						if gl := globalLoad(side); gl != nil && gl.Type().String() == "*error" {
+							identity = gl.Name() + " at " + c.P.Pos(x.Pos())
+						}
+					}
+				}
+			}
+		})
+	}
+	var missing []string
+	for k, ok := range want {
+		if !ok {
+			missing = append(missing, k)
+		}
+	}
+	sort.Strings(missing)
+	c.Check(len(missing) == 0, "TABLE.closing", f, "closed errors recognised through errors.Is", f.Pos(), "errors.Is(err, ErrClosed) and errors.Is(err, net.ErrClosed) are both consulted", "IsErrClosing does not consult errors.Is for "+strings.Join(missing, ", ")+": an error wrapping that sentinel is not recognised as a closed channel/listener (Loop would return it instead of nil; the server would not report Closed)")
+	c.Check(identity == "", "TABLE.closing", f, "no identity comparison with a sentinel", f.Pos(), "no == / != against an error sentinel", "IsErrClosing compares with "+identity+" by identity: wrapped errors are not recognised")
+	// the decision itself: true exactly for err != nil ∧ (Is(ErrClosed) ∨ Is(net.ErrClosed)),
+	// evaluated over every consistent assignment of the three tests
+	atomOf := func(v ssa.Value) (string, bool, bool) {
+		if call, ok := v.(*ssa.Call); ok && ir.IsCallTo(&call.Call, "errors.Is") && len(call.Call.Args) == 2 {
+			if gl := globalLoad(call.Call.Args[1]); gl != nil {
+				if gl.Pkg != nil && gl.Pkg.Pkg.Path() == "net" {
+					return "net." + gl.Name(), false, true
+				}
+				return gl.Name(), false, true
+			}
+		}
+		if x, eq, ok := ir.NilCompare(v); ok && x == ssa.Value(f.Params[0]) {
+			return "nonnil", eq, true
+		}
+		return "", false, false
+	}
+	if len(missing) == 0 && identity == "" && len(c.P.Ext(f)) == 1 {
+		bad := ""
+		for _, nn := range []bool{false, true} {
+			for _, a := range []bool{false, true} {
+				for _, b := range []bool{false, true} {
+					if !nn && (a || b) {
+						continue // errors.Is(nil, x) is false
+					}
+					got, ok := ir.EvalBool(f, atomOf, map[string]bool{"nonnil": nn, "ErrClosed": a, "net.ErrClosed": b})
+					if !ok {
+						bad = "cannot evaluate the function's decision"
+					} else if got != (nn && (a || b)) {
+						bad = fmt.Sprintf("for err≠nil=%v, Is(ErrClosed)=%v, Is(net.ErrClosed)=%v the result is %v", nn, a, b, got)
+					}
+				}
+			}
+		}
+		c.Check(bad == "", "TABLE.closing", f, "decision table", f.Pos(), "true exactly for err ≠ nil ∧ (Is(ErrClosed) ∨ Is(net.ErrClosed))", "IsErrClosing's decision is not err ≠ nil ∧ (Is(ErrClosed) ∨ Is(net.ErrClosed)): "+bad)
+	}
+}
+
+// ruleRequestPredicateTable (C17, C09): the predicate that tells requests and
+// notifications from replies is exactly "method non-empty ∧ no error member ∧
+// no result member": it decides whether an inbound message is dispatched to a
+// handler under its exact method name or matched against pending callbacks, so
+// no method-name string other than the empty one may fall on the reply side.
+func ruleRequestPredicateTable(c *chk.Ctx) {
+	n := 0
+	for _, f := range pkgFuncs(c, c.M.Pkg) {
+		if !isMsgRequestPred(c, f) {
+			continue
+		}
+		n++
+		atomOf := func(v ssa.Value) (string, bool, bool) {
+			cd := ir.Cond{V: v, Truth: true}
+			if s, ok := ir.NonEmptyLen(cd); ok && chk.LoadsField(s, c.M.JM) {
+				return "M", false, true
+			}
+			if x, y, op, ok := ir.Rel(cd); ok && (op == token.EQL || op == token.NEQ) {
+				for _, p := range [][2]ssa.Value{{x, y}, {y, x}} {
+					if s, isS := constString(p[1]); isS && s == "" && chk.LoadsField(p[0], c.M.JM) {
+						return "M", op == token.EQL, true
+					}
+				}
+			}
+			if x, eq, ok := ir.NilCompare(v); ok {
+				switch {
+				case chk.LoadsField(x, c.M.JE):
+					return "E", eq, true
+				case chk.LoadsField(x, c.M.JR):
+					return "R", eq, true
+				}
+			}
+			if s, ok := ir.NonEmptyLen(cd); ok && chk.LoadsField(s, c.M.JR) {
+				return "R", false, true
+			}
+			return "", false, false
+		}
+		bad := ""
+		for _, m := range []bool{false, true} {
+			for _, e := range []bool{false, true} {
+				for _, r := range []bool{false, true} {
+					got, ok := ir.EvalBool(f, atomOf, map[string]bool{"M": m, "E": e, "R": r})
+					if !ok {
+						bad = "the decision involves something other than emptiness of the method and presence of the error/result members"
+					} else if got != (m && !e && !r) {
+						bad = fmt.Sprintf("for method≠\"\"=%v, error present=%v, result present=%v the result is %v", m, e, r, got)
+					}
+				}
+			}
+		}
+		c.Check(bad == "", "TABLE.request", f, "request ⇔ method ≠ \"\" ∧ no error ∧ no result", f.Pos(), "the predicate's decision table is exactly that", "the request/notification predicate is not exactly 'method non-empty, no error, no result': "+bad+" — some method-name strings would be treated as replies and never dispatched")
+	}
+	if n == 0 {
+		c.Undecided("TABLE.request", nil, "request predicate", 0, "no jmessage predicate reading method, error and result found")
+	}
+}
+
+// ruleParsedRecordNotDiscarded (C08, C12): once the server's reader has
+// decided to parse what Recv returned (a record, or a final record delivered
+// together with io.EOF), no feasible path leads from the parse to the
+// receive-failure stop: the record is examined and queued first, and the end
+// of input is acted on at the next Recv. Paths are enumerated with phi values
+// taken from the edge travelled and nil tests evaluated against what the path
+// established.
+func ruleParsedRecordNotDiscarded(c *chk.Ctx) {
+	stop := stopFunc(c, "server")
+	for _, s := range chanSites(c, "Recv") {
+		if !(len(s.owners) == 1 && s.owners["server"] && !s.other) {
+			continue
+		}
+		f := s.fn
+		recv, _ := s.instr.(*ssa.Call)
+		var parse ssa.CallInstruction
+		ir.Calls(f, func(ci ssa.CallInstruction) {
+			if g := ci.Common().StaticCallee(); g != nil && isListParser(c, g) {
+				parse = ci
+			}
+		})
+		if parse == nil || recv == nil || stop == nil {
+			c.Undecided("PAIR.parsed", f, "parsed record reaches the queue", f.Pos(), "reader, parser call or stop function not found")
+			return
+		}
+		bad := ""
+		okWalk := ir.WalkNilPaths(recv.Block(), func(path []*ssa.BasicBlock, resolve func(ssa.Value) ssa.Value) bool {
+			b := path[len(path)-1]
+			parsed := false
+			for _, p := range path {
+				if p == parse.Block() {
+					parsed = true
+				}
+			}
+			if !parsed {
+				return true
+			}
+			for _, ins := range b.Instrs {
+				ci, isCall := ins.(ssa.CallInstruction)
+				if !isCall || ci.Common().StaticCallee() != stop {
+					continue
+				}
+				if b == parse.Block() {
+					continue
+				}
+				args := ci.Common().Args
+				cause := resolve(args[len(args)-1])
+				if k, isK := cause.(*ssa.Const); isK && k.IsNil() {
+					continue
+				}
+				if ir.IsExtractOf(cause, recv, 1) || ir.IsExtractOf(ir.NormCell(cause), recv, 1) {
+					bad = c.P.Pos(ci.Pos())
+					return false
+				}
+			}
+			return true
+		})
+		if !okWalk {
+			c.Undecided("PAIR.parsed", f, "parsed record reaches the queue", parse.Pos(), "too many paths through the reader")
+			return
+		}
+		c.Check(bad == "", "PAIR.parsed", f, "parsed record reaches the queue", parse.Pos(), "no feasible path from the parse leads to the stop with Recv's error", "after parsing a record the reader can still take the receive-failure exit (stop at "+bad+"): a final record delivered together with io.EOF is parsed and then thrown away, and its notifications never reach their handlers")
+		return
+	}
+}
+
+// rulePendingTablesNeverReplaced (C08, C09): the tables of pending responses
+// (the server's callbacks, the client's calls) are assigned only when their
+// owner is constructed. Entries leave a table only through look-up-and-remove,
+// whose remover must complete the entry (TOKEN.take); replacing the table of a
+// live owner would orphan every pending entry: its waiter finds nothing to
+// complete and the caller blocks for ever.
+func rulePendingTablesNeverReplaced(c *chk.Ctx, fields ...*types.Var) {
+	for _, fv := range fields {
+		if fv == nil {
+			continue
+		}
+		n := 0
+		for _, st := range c.P.FieldStores(fv) {
+			n++
+			fa, _ := st.Addr.(*ssa.FieldAddr)
+			fresh := false
+			if fa != nil {
+				_, fresh = ir.NormCell(fa.X).(*ssa.Alloc)
+			}
+			c.Check(fresh, "WHO.tables", st.Parent(), "table "+fv.Name()+" assigned only at construction", st.Pos(), "the table is stored into a freshly allocated owner", "the table of pending responses "+fv.Name()+" is replaced on a live owner: entries still pending are orphaned — their waiters find no entry to complete and their callers never return")
+		}
+		if n == 0 {
+			c.Undecided("WHO.tables", nil, "table "+fv.Name(), 0, "no assignment of the table found")
+		}
+	}
+}
+
+// ruleMemberLoopOrderIndependent (C13): the member parser visits the members
+// of a message by ranging over a map, in no particular order. No decision
+// inside that loop may therefore depend on a member field that another turn of
+// the loop fills in: a branch in the loop that reads a message field (other
+// than the first-error accumulator) which the loop writes at a place that does
+// not dominate the branch sees "not yet" or "already" depending on the order —
+// the same message would be accepted on one parse and refused on the next.
+func ruleMemberLoopOrderIndependent(c *chk.Ctx) {
+	n := 0
+	for _, f := range pkgFuncs(c, c.M.Pkg) {
+		if ir.RecvNamed(f) != c.M.Jmessage {
+			continue
+		}
+		ir.Instrs(f, func(ins ssa.Instruction) {
+			rg, ok := ins.(*ssa.Range)
+			if !ok {
+				return
+			}
+			if _, isMap := rg.X.Type().Underlying().(*types.Map); !isMap {
+				return
+			}
+			var hdr *ssa.BasicBlock
+			for _, r := range *rg.Referrers() {
+				if nx, isNext := r.(*ssa.Next); isNext {
+					hdr = nx.Block()
+				}
+			}
+			if hdr == nil {
+				return
+			}
+			n++
+			in := ir.LoopBlocks(hdr)
+			// writes of message fields inside the loop
+			writes := map[*types.Var][]ssa.Instruction{}
+			for b := range in {
+				for _, i2 := range b.Instrs {
+					switch x := i2.(type) {
+					case *ssa.Store:
+						if fa, isFA := x.Addr.(*ssa.FieldAddr); isFA && ir.FieldOwner(fa) == c.M.Jmessage {
+							writes[ir.FieldVar(fa)] = append(writes[ir.FieldVar(fa)], x)
+						}
+					case ssa.CallInstruction:
+						for _, a := range x.Common().Args {
+							if mi, isMI := a.(*ssa.MakeInterface); isMI {
+								a = mi.X
+							}
+							if fa, isFA := a.(*ssa.FieldAddr); isFA && ir.FieldOwner(fa) == c.M.Jmessage {
+								writes[ir.FieldVar(fa)] = append(writes[ir.FieldVar(fa)], x)
+							}
+						}
+					}
+				}
+			}
+			bad := ""
+			for b := range in {
+				iff, isIf := b.Instrs[len(b.Instrs)-1].(*ssa.If)
+				if !isIf {
+					continue
+				}
+				var reads []*types.Var
+				var scan func(v ssa.Value, depth int)
+				scan = func(v ssa.Value, depth int) {
+					if depth > 4 {
+						return
+					}
+					switch x := v.(type) {
+					case *ssa.BinOp:
+						scan(x.X, depth+1)
+						scan(x.Y, depth+1)
+					case *ssa.UnOp:
+						if fa, isFA := x.X.(*ssa.FieldAddr); isFA && x.Op == token.MUL && ir.FieldOwner(fa) == c.M.Jmessage {
+							reads = append(reads, ir.FieldVar(fa))
+						} else {
+							scan(x.X, depth+1)
+						}
+					case *ssa.Call:
+						if x.Call.StaticCallee() == nil && !x.Call.IsInvoke() {
+							if bi, isB := x.Call.Value.(*ssa.Builtin); isB && bi.Name() == "len" {
+								scan(x.Call.Args[0], depth+1)
+							}
+						}
+					}
+				}
+				scan(iff.Cond, 0)
+				for _, fv := range reads {
+					if fv == c.M.JErr {
+						continue
+					}
+					for _, w := range writes[fv] {
+						if !ir.InstrDominates(w, iff) {
+							bad = "field " + fv.Name() + " read at " + c.P.Pos(iff.Cond.Pos()) + ", written at " + c.P.Pos(w.Pos())
+						}
+					}
+				}
+			}
+			c.Check(bad == "", "PROV.order", f, "decisions in the member loop do not depend on other members", rg.Pos(), "no branch in the loop over the members reads a field another turn of the loop writes", "a decision inside the loop over a message's members depends on another member ("+bad+"): the members are visited in map order, so the same message is judged differently from one parse to the next")
+		})
+	}
+	if n == 0 {
+		c.Undecided("PROV.order", nil, "member loop", 0, "no range over a map found in the message parser")
+	}
+}
+
+// ruleBridgeParsesWholeBody (C18): the bridge gives ParseRequests the whole
+// request body — what io.ReadAll (or a bytes.Buffer filled from the body)
+// returned — so that a body that is not one valid JSON value is refused as a
+// whole. A stream decoder stops after the first value and would let
+// `{...} garbage` through.
+func ruleBridgeParsesWholeBody(c *chk.Ctx) {
+	n := 0
+	for _, f := range pkgFuncs(c, c.M.JhttpPkg) {
+		ir.Calls(f, func(ci ssa.CallInstruction) {
+			callee := ci.Common().StaticCallee()
+			if callee == nil || callee.Name() != "ParseRequests" || callee.Pkg != c.M.Pkg {
+				return
+			}
+			n++
+			var bad []string
+			for _, src := range c.P.SourcesStop(ci.Common().Args[0], func(v ssa.Value) bool {
+				_, isExt := v.(*ssa.Extract)
+				_, isCall := v.(*ssa.Call)
+				return isExt || isCall
+			}) {
+				ok := false
+				switch x := src.(type) {
+				case *ssa.Extract:
+					if call, isCall := x.Tuple.(*ssa.Call); isCall && x.Index == 0 && (ir.IsCallTo(&call.Call, "io.ReadAll") || ir.IsCallTo(&call.Call, "io/ioutil.ReadAll")) {
+						ok = true
+					}
+				case *ssa.Call:
+					if ir.IsCallTo(&x.Call, "(*bytes.Buffer).Bytes") {
+						ok = true
+					}
+				}
+				if !ok {
+					bad = append(bad, fmt.Sprintf("%s (%T) at %s", src.Name(), src, c.P.Pos(src.Pos())))
+				}
+			}
+			c.Check(len(bad) == 0, "PROV.body", f, "the whole body is parsed", ci.Pos(), "ParseRequests receives what io.ReadAll returned for the body", "ParseRequests is given something other than the complete body ("+strings.Join(bad, "; ")+"): bytes after the first JSON value would be ignored, so an invalid body could run handlers")
+		})
+	}
+	if n == 0 {
+		c.Undecided("PROV.body", nil, "bridge body", 0, "no call of ParseRequests in the jhttp package")
+	}
+}
+
+// ruleCountdownAgrees (C01): the counter that decides "this is the last
+// runnable task, run it inline and stop" is produced by the counting function
+// (which counts the tasks with err == nil) and must be consumed the same way:
+// every decrement of it in the task loop sits on the err == nil edge of the
+// task at hand. A decrement that also happens for failed tasks reaches zero
+// early, and the runnable tasks after that point are never invoked.
+func ruleCountdownAgrees(c *chk.Ctx, d *dispatchModel) {
+	loopFn := taskLoopFunc(c, d)
+	if loopFn == nil || d.numToDo == nil {
+		c.Undecided("PAIR.countdown", nil, "countdown", 0, "task loop or counting function not resolved")
+		return
+	}
+	fromCount := func(v ssa.Value) bool {
+		isCount := func(x ssa.Value) bool {
+			if e, ok := x.(*ssa.Extract); ok {
+				x = e.Tuple
+			}
+			call, ok := x.(*ssa.Call)
+			return ok && call.Call.StaticCallee() == d.numToDo
+		}
+		for _, src := range c.P.SourcesStop(v, isCount) {
+			switch x := src.(type) {
+			case *ssa.Extract:
+				if call, ok := x.Tuple.(*ssa.Call); ok && call.Call.StaticCallee() == d.numToDo && x.Index == 0 {
+					return true
+				}
+			case *ssa.Call:
+				if x.Call.StaticCallee() == d.numToDo {
+					return true
+				}
+			}
+		}
+		return false
+	}
+	n := 0
+	c.P.ExtInstrs(loopFn, func(ins ssa.Instruction) {
+		b, ok := ins.(*ssa.BinOp)
+		if !ok || b.Op != token.SUB {
+			return
+		}
+		if k, isC := ir.ConstInt(b.Y); !isC || k != 1 {
+			return
+		}
+		if !ir.InCycle(b.Block()) && b.Parent() == loopFn {
+			return
+		}
+		if !fromCount(b.X) {
+			return
+		}
+		n++
+		guarded := c.P.AllContexts(b, nil, func(cs []ir.Cond) bool {
+			for _, cd := range cs {
+				if known, isNil := isErrNilOfTask(c, cd, nil); known && isNil {
+					return true
+				}
+			}
+			return false
+		})
+		c.Check(guarded, "PAIR.countdown", b.Parent(), "countdown decremented for runnable tasks only", b.Pos(), "the decrement sits on the err == nil edge of the task", "the count of runnable tasks is decremented also for a task that already failed: it reaches zero before the last runnable task, the loop ends there, and the runnable tasks that follow are never invoked (their replies carry neither result nor error)")
+	})
+	if n == 0 {
+		// no countdown at all (e.g. every task gets a goroutine): nothing to agree on
+		c.Pass("PAIR.countdown", loopFn, "countdown decremented for runnable tasks only", loopFn.Pos(), "the task loop has no countdown derived from the counting function")
+	}
+}
+
+// ruleAccessorDefaults: an option accessor that supplies a default — a method
+// without parameters on a pointer to an options struct, some return of which
+// yields something other than the option field — supplies it whenever the
+// option is unset: a return that yields a nil-able option field (interface,
+// function, pointer, map, slice, channel) is reached only where that field was
+// found non-nil. Code behind the accessor relies on never seeing nil (for the
+// jhttp channel a nil client even means "closed").
+func ruleAccessorDefaults(c *chk.Ctx, rule string, pkgs ...*ssa.Package) {
+	n := 0
+	for _, pkg := range pkgs {
+		for _, f := range pkgFuncs(c, pkg) {
+			if f.Parent() != nil || f.Signature.Recv() == nil || f.Signature.Params().Len() != 0 || f.Signature.Results().Len() != 1 || len(f.Blocks) == 0 {
+				continue
+			}
+			pt, ok := f.Signature.Recv().Type().(*types.Pointer)
+			if !ok {
+				continue
+			}
+			named, ok := pt.Elem().(*types.Named)
+			if !ok || !strings.HasSuffix(named.Obj().Name(), "Options") {
+				continue
+			}
+			switch f.Signature.Results().At(0).Type().Underlying().(type) {
+			case *types.Interface, *types.Signature, *types.Pointer, *types.Map, *types.Slice, *types.Chan:
+			default:
+				continue
+			}
+			type fieldRet struct {
+				r  *ssa.Return
+				fa *ssa.FieldAddr
+				v  ssa.Value
+			}
+			var fieldRets []fieldRet
+			hasDefault := false
+			for _, r := range ir.Returns(f) {
+				v := ir.ReturnResult(r, 0)
+				leafs := []ssa.Value{v}
+				if phi, isPhi := v.(*ssa.Phi); isPhi {
+					leafs = phi.Edges
+				}
+				for _, lv := range leafs {
+					if u, isU := lv.(*ssa.UnOp); isU && u.Op == token.MUL {
+						if fa, isFA := u.X.(*ssa.FieldAddr); isFA && ir.FieldOwner(fa) == named && fa.X == ssa.Value(f.Params[0]) {
+							fieldRets = append(fieldRets, fieldRet{r, fa, lv})
+							continue
+						}
+					}
+					if !ir.IsNilConst(lv) {
+						hasDefault = true
+					}
+				}
+			}
+			if !hasDefault || len(fieldRets) == 0 {
+				continue
+			}
+			n++
+			for _, fr := range fieldRets {
+				fv := ir.FieldVar(fr.fa)
+				same := func(v ssa.Value) bool {
+					u, isU := v.(*ssa.UnOp)
+					if !isU || u.Op != token.MUL {
+						return false
+					}
+					fa, isFA := u.X.(*ssa.FieldAddr)
+					return isFA && ir.FieldVar(fa) == fv && fa.X == fr.fa.X
+				}
+				blk := fr.r.Block()
+				if in, isIns := fr.v.(ssa.Instruction); isIns {
+					blk = in.Block()
+				}
+				proved := true
+				alts := ir.CondAltsAt(blk)
+				if len(alts) == 0 {
+					proved = false
+				}
+				for _, cs := range alts {
+					nonNil := false
+					for _, cd := range cs {
+						if x, eq, isCmp := ir.NilCompare(cd.V); isCmp && same(x) && eq != cd.Truth {
+							nonNil = true
+						}
+					}
+					if !nonNil {
+						proved = false
+					}
+				}
+				c.Check(proved, rule, f, "default supplied whenever "+fv.Name()+" is unset", fr.r.Pos(), "the option field is returned only where it was found non-nil", "the accessor can return the unset (nil) option "+fv.Name()+" although it has a default for it: code behind the accessor assumes a usable value (a nil HTTP client marks the jhttp channel as closed from the start)")
+			}
+		}
+	}
+	if n == 0 {
+		c.Undecided(rule, nil, "option accessors", 0, "no option accessor with a default found")
+	}
+}
+
+// ruleQueryStringsWhole (C19): a string that ParseQuery stores as a parameter
+// value is either the query value itself or what encoding/json decoded from
+// it — never a piece cut out of it or something assembled from pieces. A
+// double-quoted value must be a valid JSON string to be accepted, and only the
+// JSON decoder decides that; taking the text between the quotes accepts
+// values that are not JSON strings (an unescaped quote, a raw control
+// character) and delivers them undecoded.
+func ruleQueryStringsWhole(c *chk.Ctx) {
+	f := c.M.JhttpPkg.Func("ParseQuery")
+	if f == nil {
+		c.Undecided("PROV.params", nil, "ParseQuery", 0, "not found")
+		return
+	}
+	n := 0
+	ir.Instrs(f, func(ins ssa.Instruction) {
+		mu, ok := ins.(*ssa.MapUpdate)
+		if !ok {
+			return
+		}
+		n++
+		var bad []string
+		stop := func(v ssa.Value) bool {
+			switch x := v.(type) {
+			case *ssa.Slice:
+				return true
+			case *ssa.BinOp:
+				return x.Op == token.ADD
+			}
+			return false
+		}
+		for _, src := range c.P.SourcesStop(mu.Value, stop) {
+			b, isBasic := src.Type().Underlying().(*types.Basic)
+			if !isBasic || b.Info()&types.IsString == 0 {
+				continue
+			}
+			switch src.(type) {
+			case *ssa.Slice:
+				bad = append(bad, "a substring taken at "+c.P.Pos(src.Pos()))
+			case *ssa.BinOp:
+				bad = append(bad, "a concatenation at "+c.P.Pos(src.Pos()))
+			}
+		}
+		c.Check(len(bad) == 0, "PROV.params", f, "string parameters are whole values or JSON-decoded", mu.Pos(), "no string stored is a substring or concatenation", "a string parameter is "+strings.Join(bad, ", ")+": a double-quoted query value would be delivered without passing the JSON decoder, so values that are not valid JSON strings are accepted instead of being refused with 400")
+	})
+	if n == 0 {
+		c.Undecided("PROV.params", f, "string parameters", f.Pos(), "no parameter store found in ParseQuery")
 	}
 }
